@@ -530,6 +530,15 @@ func (rc *RegClient) ImageCopy(ctx context.Context, refSrc ref.Ref, refTgt ref.R
 		tgtGCLocker.GCLock(refTgt)
 		defer tgtGCLocker.GCUnlock(refTgt)
 	}
+	// referrers may be written to a different target, block GC there too
+	if opt.referrerTgt.IsSet() {
+		if schemeRefAPI, err := rc.schemeGet(opt.referrerTgt.Scheme); err == nil {
+			if refGCLocker, isGCLocker := schemeRefAPI.(scheme.GCLocker); isGCLocker {
+				refGCLocker.GCLock(opt.referrerTgt)
+				defer refGCLocker.GCUnlock(opt.referrerTgt)
+			}
+		}
+	}
 	// run the copy of manifests and blobs recursively
 	err = rc.imageCopyOpt(ctx, refSrc, refTgt, descriptor.Descriptor{}, opt.child, []digest.Digest{}, &opt)
 	if err != nil {
